@@ -76,13 +76,13 @@ def run(outcome, tier, seed):
                             names[pos] = bad
                             if rng.random() < 0.15 and to != "toml":
                                 names.insert(0, "huge.json")
-                            mode = rng.choice(["pipe", "pipe", "file"])
+                            mode = rng.choice(["pipe", "pipe", "file", "append"])      # append: `>> file`, the file not empty
                             cases.append(cli.Case(["-t", to] + names, stdin, mode))
                             meta.append((kind, pos, to))
                 # all good
                 if to != "toml":
                     names = [rng.choice(GOOD) for _ in range(rng.randint(1, 6))]
-                    cases.append(cli.Case(["-t", to] + names, stdin, rng.choice(["pipe", "file"])))
+                    cases.append(cli.Case(["-t", to] + names, stdin, rng.choice(["pipe", "file", "append"])))
                     meta.append(("none", len(names), to))
         # earlier inputs that are streams (standard input, a FIFO) of every shape: read to their end while the format is being
         # detected, or translated document by document; named or detected format
